@@ -1,6 +1,53 @@
+import DdsModel.View
 import DdsModel.Drv.Util
 namespace Dds.Drv
+open Dds
 
-def runC20 (_line : String) : String := "not-modelled"
+def colorBpp (i : Nat) : Option Nat := [1, 1, 3, 4, 2, 2, 6, 8, 4, 4, 12, 16][i]?
+
+def fmtRows (base : Nat) (rows : List (Nat × Nat)) : String :=
+  let n := rows.length
+  let idxs : List Nat := if n ≤ 8 then List.range n else [0, 1, 2, n - 2, n - 1]
+  let f (i : Nat) : String := match rows[i]? with
+    | some (a, b) => s!"{base + a}:{b - a}"
+    | none => "?"
+  s!"{n};" ++ ",".intercalate (idxs.map f)
+
+def fmtView (shared : Bool) (v : View) : String :=
+  let rows := if shared then v.rowsP else v.rowsMutP
+  match rows with
+  | none => "panic"
+  | some r =>
+    let base := if v.len = 0 then "-" else toString v.base
+    s!"some {v.w} {v.h} {v.pitch} {v.len} {base} {fmtRows v.base r}"
+
+def runC20 (line : String) : String :=
+  match toks line with
+  | ["N", k, len, w, h, c] =>
+    match nat? len, nat? w, nat? h, (nat? c).bind colorBpp with
+    | some len, some w, some h, some bpp =>
+      match View.new len w h bpp with
+      | none => "none"
+      | some v => fmtView (k == "s") v
+    | _, _, _, _ => "bad-case"
+  | ["W", k, len, pitch, w, h, c] =>
+    match nat? len, nat? pitch, nat? w, nat? h, (nat? c).bind colorBpp with
+    | some len, some pitch, some w, some h, some bpp =>
+      match View.newWith len pitch w h bpp with
+      | none => "none"
+      | some v => fmtView (k == "s") v
+    | _, _, _, _, _ => "bad-case"
+  | ["C", k, len, pitch, w, h, c, ox, oy, cw, ch] =>
+    match nat? len, nat? pitch, nat? w, nat? h, (nat? c).bind colorBpp,
+          nat? ox, nat? oy, nat? cw, nat? ch with
+    | some len, some pitch, some w, some h, some bpp, some ox, some oy, some cw, some ch =>
+      match View.newWith len pitch w h bpp with
+      | none => "none"
+      | some v =>
+        match v.croppedP ox oy cw ch with
+        | none => "panic"
+        | some c => fmtView (k == "s") c
+    | _, _, _, _, _, _, _, _, _ => "bad-case"
+  | _ => "bad-case"
 
 end Dds.Drv
